@@ -276,6 +276,17 @@ func drive(args []string) int {
 	}
 	sort.Slice(all, func(i, j int) bool { return all[i].Idx < all[j].Idx })
 
+	if rf, err := os.Create(filepath.Join(work, "results.jsonl")); err == nil {
+		for _, r := range all {
+			b, _ := json.Marshal(r)
+			rf.Write(append(b, '\n'))
+		}
+		rf.Close()
+	}
+	for i := range plan {
+		plan[i].Idx = i
+		plan[i].Prop = p.ID()
+	}
 	findings := loadFindings(filepath.Join(*verif, "KNOWN_FINDINGS.txt"))
 	distinct := map[string]bool{}
 	sigs := map[string]bool{}
